@@ -1,7 +1,7 @@
 (* C16  Only safe, well-formed addresses are accepted, and they round-trip exactly.
    Statements only.  The three third-party functions are universally quantified oracles;
    the hypotheses about them are validated against the real crates on every check run. *)
-From LV Require Import Base.Bytes Base.Utf8 Base.Res Model.Address Proofs.AddressProofs.
+From LV Require Import Base.Bytes Base.Utf8 Base.Res Model.Address Proofs.AddressProofs Model.Mailbox Model.Builder.
 
 Section C16.
 Variable alnum : N -> bool.                 (* char::is_alphanumeric *)
@@ -69,6 +69,34 @@ Theorem C16_literal_angle_refuted : forall alnum idna ip_ok, alnum 97 = true ->
   exists s a, addr_from_str alnum idna ip_ok s = Ok a /\ In 62 (a_domain a).
 Proof. exact literal_angle_witness. Qed.
 
+(* An envelope never has an empty recipient list - the two ways to one that the builder model contains: for every
+   state of the header map (whatever texts are stored, parseable or not), Envelope::try_from(&Headers) either
+   refuses (MissingTo / TooManyFrom) or yields an envelope with at least one recipient, namely the To, Cc and
+   Bcc addresses in that order; and build() without an explicit envelope hands out only such envelopes.  (An
+   explicit envelope is a value made by Envelope::new or the deserializer, whose refusal of an empty list - and
+   the absence of any other public constructor, Default included - is checked on the implementation.) *)
+Theorem C16_envelope_from_headers_never_empty : forall alnum idna ip_ok (b : bstate) (e : envelope),
+  envelope_of_headers alnum idna ip_ok b = Ok e ->
+  env_to e <> [] /\
+  env_to e = emails (match get_list alnum idna ip_ok HTo b with Some l => l | None => [] end)
+          ++ emails (match get_list alnum idna ip_ok HCc b with Some l => l | None => [] end)
+          ++ emails (match get_list alnum idna ip_ok HBcc b with Some l => l | None => [] end).
+Proof.
+  intros alnum idna ip_ok b e H. unfold envelope_of_headers in H.
+  match type of H with match ?f with _ => _ end = _ => destruct f as [fr|x|]; try discriminate end.
+  match type of H with match ?t with _ => _ end = _ => destruct t as [|a l] eqn:Et; [discriminate|] end.
+  inversion H; subst. cbn [env_to]. split; [discriminate|reflexivity].
+Qed.
+Theorem C16_built_envelope_never_empty : forall alnum idna ip_ok (b : bstate) (e : envelope) (k : bool),
+  b_env b = None -> b_build alnum idna ip_ok b = Ok (e, k) -> env_to e <> [].
+Proof.
+  intros alnum idna ip_ok b e k Hn H. unfold b_build in H. rewrite Hn in H.
+  destruct (get_list alnum idna ip_ok HFrom b) as [fs|]; [|discriminate].
+  match type of H with (if ?c then _ else _) = _ => destruct c; [discriminate|] end.
+  destruct (envelope_of_headers alnum idna ip_ok b) as [e'|x|] eqn:E; try discriminate.
+  inversion H; subst. exact (proj1 (C16_envelope_from_headers_never_empty alnum idna ip_ok b e E)).
+Qed.
+
 Example C16_example : forall idna ip_ok,
   addr_from_str (fun c => is_alnum_ascii c) idna ip_ok [97; 64; 98; 46; 99] = Ok (mkAddr [97] [98; 46; 99]).
 Proof. reflexivity. Qed.
@@ -80,3 +108,5 @@ Print Assumptions C16_safe.
 Print Assumptions C16_no_crlf.
 Print Assumptions C16_new_iff_parse_refuted.
 Print Assumptions C16_literal_angle_refuted.
+Print Assumptions C16_envelope_from_headers_never_empty.
+Print Assumptions C16_built_envelope_never_empty.
